@@ -200,6 +200,25 @@ class C20(core.Check):
                                 continue       # a real vocabulary word followed by punctuation, e.g. `br` in `br.e`
                             why = 'dot-unescaped' if '.' in w and ('x' in nm or '_' in nm) and len(nm) == len(w) else 'other'
                             found.append((f'near-miss-classified/{cls}/{why}', {'word': nm, 'near': w, 'span': r, 'pattern': pats.get(cls)}))
+        # the end-of-statement look-ahead of an instruction / macro rule must stop in front of every operation mnemonic
+        # (instructions AND macros), otherwise a second statement on the same line is swallowed as operands
+        for endcls in ('end:instruction', 'end:macro'):
+            pat = pats.get(endcls)
+            if pat is None:
+                continue
+            try:
+                rx = re.compile(pat)
+            except re.error:
+                vs.append(core.inconclusive('pattern not compilable by Python re: ' + endcls))
+                continue
+            for w in m['mns'] + m['macros']:
+                self.words += 1
+                line = 'zz 1 ' + w + ' 2'
+                pos = line.index(' ' + w + ' ')
+                hits = [mm.start() for mm in rx.finditer(line)]
+                if not any(pos <= h <= pos + 1 for h in hits):
+                    kind = 'macro' if w in m['macros'] else 'instruction'
+                    found.append((f'statement-end-lookahead-misses-{kind}/{endcls}', {'word': w, 'pattern': pat[:300]}))
         # an instruction must not also be classified as a macro and vice versa
         if not m['macros'] and (pats.get('macro') is not None or po.get('includes_macros')) and m['target'] == 'vscode':
             found.append(('macro-rule-present-without-macros', {'pattern': pats.get('macro')}))
